@@ -219,9 +219,9 @@ NOTES = []   # translator remarks of this process (fail-closed groups), printed 
 
 
 def regenerate():
-    """re-run the translators (literals, decision expressions); returns (ok, message)"""
+    """re-run the translators (literals, decision expressions, aliasing programs of C14); returns (ok, message)"""
     msgs, ok = [], True
-    for script, target in (("gen_consts.py", "Consts_here.v"), ("gen_exprs.py", "Exprs_.v")):
+    for script, target in (("gen_consts.py", "Consts_here.v"), ("gen_exprs.py", "Exprs_.v"), ("gen_frame.py", "Frame_here.v")):
         rc, out = _sh([sys.executable, os.path.join(VERIF, "harness", script), os.path.join(COQ, "gen", target)],
                       env=dict(os.environ, ALDY_REPO=REPO))
         ok = ok and rc == 0
